@@ -47,7 +47,7 @@ type fnResult struct {
 func (w *world) newCtx(con *Contract, fn *ssa.Function, mode string) *ctx {
 	return &ctx{w: w, con: con, fn: fn, mode: mode, seen: map[string]bool{}, hinfo: map[string]heapInfo{}, skolem: map[string]val{}, params: map[string]val{},
 		siteOrd: map[string]int{}, maxPaths: 6000, alias: map[string]string{}, assumed: map[string]bool{}, depthCap: 6,
-		cellRootType: map[int]types.Type{}, knownLen: map[string]int{}, ghostConst: map[string]term{}}
+		cellRootType: map[int]types.Type{}, memo: map[string][]memoEntry{}, knownLen: map[string]int{}, ghostConst: map[string]term{}}
 }
 
 // verifyFunc symbolically executes fn (the function of con, or a concrete implementation of an interface method)
